@@ -63,6 +63,8 @@ class RealAlg:
     def is_nan(self, a): return False
     def is_finite(self, a): return True
     def is_infinite(self, a): return False
+    def is_normal(self, a): return a.v != 0
+    def is_subnormal(self, a): return False
     def from_int(self, i): return Fl(z3.ToReal(i) if z3.is_expr(i) else z3.RealVal(i))
     def trunc(self, a):
         x = a.v
@@ -142,6 +144,8 @@ class FP64Alg:
     def is_nan(self, a): return z3.fpIsNaN(a.v)
     def is_infinite(self, a): return z3.fpIsInf(a.v)
     def is_finite(self, a): return z3.And(z3.Not(z3.fpIsNaN(a.v)), z3.Not(z3.fpIsInf(a.v)))
+    def is_normal(self, a): return z3.fpIsNormal(a.v)
+    def is_subnormal(self, a): return z3.fpIsSubnormal(a.v)
     def minf(self, a, b): return Fl(z3.fpMin(a.v, b.v))
     def maxf(self, a, b): return Fl(z3.fpMax(a.v, b.v))
     def clampf(self, x, lo, hi):
